@@ -10,6 +10,7 @@ CONSTANTS
   MaxHold = 1
   MaxSick = 0
   MaxReset = 0
+  MaxIdle = 0
   AllowReset = TRUE
   Depth = 8
 CHECK_DEADLOCK FALSE
